@@ -52,6 +52,20 @@ def c18_history_scenarios(flavour, k):
                                            'hash_free': ['g_iter'], 'meta': {'family': 'history', 'len': n}}
 
 
+def c18_sole_handle_scenarios(flavour):
+    """the harness gives up its own handle of a member, so the container holds the only one; remove() hands the node out
+    and the caller keeps it: the node and its neighbours must still list the same edges"""
+    nodes = [[KEYS[i], {'s': f'n{i}'}] for i in range(3)]
+    shapes = [[(0, 1)], [(1, 0)], [(0, 1), (1, 2)], [(0, 1), (2, 1)], [(1, 1)], [(0, 1), (1, 0)], [(1, 0), (1, 2)]]
+    for seq in shapes:
+        pre = [['connect', a, b, {'s': f'e{j}'}] for j, (a, b) in enumerate(seq)]
+        for r in (0, 1):
+            steps = pre + [['g_new']] + [['g_insert', i] for i in range(3)] + [['drop', r], ['g_remove', KEYS[r], r]]
+            steps += observers(flavour) + [['dump']]
+            yield (flavour, 'sole-handle'), {'flavour': flavour, 'nodes': nodes, 'steps': steps, 'hash_free': ['g_iter'],
+                                             'meta': {'family': 'history', 'len': len(steps)}}
+
+
 def c18_index_scenarios(flavour):
     nodes = [[KEYS[i], {'s': f'n{i}'}] for i in range(4)]
     for ins in ([], [0], [3, 0], [1, 2]):
@@ -93,6 +107,71 @@ def node_obs_ok(o, alias, key, nodevals):
     if o is None:
         return False
     return AND([o['alias'] == alias, EQ(o['key'], key), EQ(o['value'], nodevals[alias])])
+
+
+def edge_model(scen, obs):
+    """how many edges join each ordered pair of harness nodes after the history, replaying only the edge operations that
+    succeeded (container operations must not touch edges)"""
+    from collections import Counter
+    fl = scen['flavour']
+    cnt = Counter()
+    for st, o in zip(scen['steps'], obs):
+        op = st[0]
+        if op == 'connect':
+            cnt[(st[1], st[2])] += 1
+        elif op == 'disconnect' and isinstance(o, list) and o and o[0] == 'ok':
+            a, b = st[1], st[2]
+            if cnt[(a, b)] > 0 and (fl in DIRECTED or cnt[(b, a)] == 0 or True):
+                # undirected: which of the two orientations goes is an internal matter; only the pair count is modelled
+                if fl in DIRECTED:
+                    cnt[(a, b)] -= 1
+                else:
+                    if cnt[(b, a)] > 0 and cnt[(a, b)] == 0:
+                        cnt[(b, a)] -= 1
+                    elif cnt[(a, b)] > 0 and cnt[(b, a)] == 0:
+                        cnt[(a, b)] -= 1
+                    else:
+                        cnt[('either', frozenset((a, b)))] -= 1
+            elif fl not in DIRECTED and cnt[(b, a)] > 0:
+                cnt[(b, a)] -= 1
+        elif op == 'isolate':
+            for (p, q) in list(cnt):
+                if p != 'either' and st[1] in (p, q):
+                    cnt[(p, q)] = 0
+                elif p == 'either' and st[1] in q:
+                    cnt[(p, q)] = 0
+    return cnt
+
+
+def eval_edges_untouched(scen, obs, dump):
+    """the final dump lists exactly the edges the edge operations left: per unordered pair of nodes, as many as modelled"""
+    from collections import Counter
+    fl = scen['flavour']
+    cnt = edge_model(scen, obs)
+    exp = Counter()
+    for key, v in cnt.items():
+        if key[0] == 'either':
+            exp[key[1]] += v
+        else:
+            exp[frozenset(key)] += v
+    got = Counter()
+    n = len(dump)
+    keyidx = {}
+    for i, d in enumerate(dump):
+        keyidx.setdefault(d['key'], i)
+    for i, d in enumerate(dump):
+        lst = d['out'] if fl in DIRECTED else d['adj']
+        for (k, _) in lst:
+            j = keyidx.get(k)
+            pair = frozenset((i, j))
+            if fl in DIRECTED or i == j:
+                got[pair] += 1 if fl in DIRECTED else 0.5
+            else:
+                got[pair] += 0.5
+    # harness node 3 shares its key with node 0 and never takes part in an edge
+    exp = {p: c for p, c in exp.items() if c}
+    got = {p: c for p, c in got.items() if c}
+    return [(exp == got, f'edges after the history: {sorted((sorted(p), c) for p, c in got.items())}, the edge operations left {sorted((sorted(p), c) for p, c in exp.items())} (a container operation changed edges)', 'edges-touched')]
 
 
 def eval_history(scen, obs):
@@ -144,6 +223,7 @@ def eval_history(scen, obs):
                 pred = lambda d: len(d['adj']) == 0
             exp = [a for a in members.values() if pred(dump[a])]
             cs.append((sorted_eq(o, exp), f'{op[2:]}() returned nodes {o}, expected {sorted(exp)}', op[2:]))
+    cs += eval_edges_untouched(scen, obs, dump)
     return cs
 
 
@@ -355,6 +435,7 @@ def run(prop, tier, seed):
     for fl in FLAVOURS:
         items += list(c18_history_scenarios(fl, k))
         items += list(c18_index_scenarios(fl))
+        items += list(c18_sole_handle_scenarios(fl))
         items += list(c18_dot_scenarios(fl, 2 if tier == 'quick' else 3))
     cells = sorted({str(c) for c, _ in items})
     return scenario_check(
